@@ -130,6 +130,8 @@ def finding_key(case, res, out, broken):
     if mode == "run" and case.scenario == "fmtfail":
         mode = "formatter-raises"
     at = f"@{out['role']}" if out["role"] else ""
+    if out.get("kill_role"):
+        at += f"+kill@{out['kill_role']}"
     parts = []
     if out["how"] == "died":
         parts.append("child-died")
@@ -180,14 +182,25 @@ def check_writes(run: Run, scratch: Path, model, table):
                 jobs.append((r["case"], r["pre"], k, "kill", str(work)))
                 for v in D.fault_variants(r["events"][k - 1]["role"]):
                     jobs.append((r["case"], r["pre"], k, "fault", str(work), v))
-        results = dry + pool.map(D.execute, jobs, chunksize=2)
+        first = pool.map(D.execute, jobs, chunksize=2)
+        # second level: the process dies while an injected (one-shot) fault is being handled, at every boundary
+        # the faulted run makes after the fault (handler / fallback / retry calls)
+        jobs2 = []
+        for r in first:
+            if r["mode"] == "fault" and r["variant"].endswith(":once") and r["status"] == "exited":
+                for e in r["events"]:
+                    if e["i"] > r["k"]:
+                        jobs2.append((r["case"], r["pre"], r["k"], "fault", str(work), f"{r['variant']}:kill@{e['i']}"))
+        results = dry + first + pool.map(D.execute, jobs2, chunksize=2)
     for r in results:
         c = r["case"]
         out = D.outcome(r, newp.get(c))
         stats[r["mode"]] += 1
         if r["mode"] != "dry" and any(e["kind"] == r["mode"] for e in r["events"]):
             injected.add((c, r["pre"], r["k"], r["mode"], r["variant"]))
-            if r["variant"]:
+            if r["variant"] and "kill@" in r["variant"]:
+                stats["fault-then-kill"] += 1
+            elif r["variant"]:
                 stats["fault:" + r["variant"]] += 1
             if sum(e["kind"] == "fault" for e in r["events"]) > 1:
                 stats["persistent_fault_hit_again"] += 1
@@ -299,7 +312,8 @@ def check(run: Run):
         "returned by open_) x {kill before the call, call raises OSError}.  Fault(c) of the spec (the call raises, handlers run) "
         "is instantiated per boundary with every error class a file system returns there (path calls: EIO, EACCES=PermissionError, "
         "ENOENT=FileNotFoundError; write/close: EIO, ENOSPC) x {once, persistent = the same call on the same path fails again "
-        "when it is re-issued by a retry or fallback}; one evaluation = one child process judged by "
+        "when it is re-issued by a retry or fallback}, and for every one-shot fault additionally a kill at each later boundary of "
+        "that run (the process dies while the fault is handled); one evaluation = one child process judged by "
         "OutcomeOK of AtomicWrite.tla; distinct non-trivial = distinct (case, destination state, boundary index, mode, fault variant) whose "
         "child logged the injection at that boundary (dry runs are not counted).  resume clause: every prefix of an apply_to run x {KeyboardInterrupt at the k-th "
         "data_store.write, hard kill at every file-system boundary of the run} then re-run in append mode, judged by "
